@@ -33,8 +33,9 @@ RANGE_ERR = {
 
 
 class Ctx:
-    def __init__(self, I, key, args, exits):
+    def __init__(self, I, key, args, exits, variant=None):
         self.I = I
+        self.variant = variant
         self.key = key
         self.args = args
         self.exits = exits
@@ -863,8 +864,32 @@ def _(c):
     _last_day(c, 'Timestamp::last_day_of_month', D_US)
 
 
-def run_contracts(I, key, args, exits):
-    ctx = Ctx(I, key, args, exits)
+def _split_exits(I, exits):
+    """an exit whose Result value still has both variants (result of a summarised callee) counts as two exits"""
+    out = []
+    for (st, ret) in exits:
+        if isinstance(ret, VAdt) and len(ret.variants) > 1 and (I.facts.types.get(ret.ty, {}).get('def') or '').endswith('result::Result'):
+            for k in sorted(ret.variants):
+                fs = ret.variants[k]
+                if k == ERR and fs and isinstance(fs[0], VAdt) and len(fs[0].variants) > 1:
+                    out.append((st, VAdt(ret.ty, {k: fs})))
+                else:
+                    out.append((st, VAdt(ret.ty, {k: fs})))
+        else:
+            out.append((st, ret))
+    return out
+
+
+def run_contracts(I, key, args, exits, variant=None):
+    exits = _split_exits(I, exits)
+    ctx = Ctx(I, key, args, exits, variant)
+    if variant is not None and variant.startswith('pic:'):
+        try:
+            from .pictures import picture_contract
+            picture_contract(ctx)
+        except Exception as e:
+            ctx.rec('C00', f"picture contract for {key} {variant}", False, f"{type(e).__name__}: {e}")
+        return ctx.out
     for pat, fn in CONTRACTS:
         if pat.search(key):
             try:
